@@ -18,16 +18,16 @@ pub static SPEC: Spec = Spec {
     run_case: |ctx, id| run_case(ctx, id, Mode::Crash),
     required: &[
         "crash_points",
-        "win:append|start>data.write",
-        "win:append|data.write>oplog.write",
-        "win:append|oplog.write>bitfield.write",
-        "win:append|tree.write>tree.write",
-        "win:append|oplog.write>oplog.truncate",
-        "win:clear|oplog.write>data.del",
-        "win:clear|start>oplog.write",
+        // generic: crash points inside every kind of call (the individual windows between two
+        // particular storage operations are implementation detail and reported as win:* counters)
+        "crash_in:build",
+        "crash_in:append",
+        "crash_in:append_batch",
+        "crash_in:clear",
+        "crash_in:make_read_only",
+        "crash_in:proof",
+        "crash_in:end",
         "crash_first_op_after_reopen_with_unflushed",
-        "win:build|oplog.write>oplog.truncate",
-        "win:make_read_only|oplog.truncate>oplog.write",
         "replica_crash_points",
     ],
     rule: "a case = one recorded history (journal of mutating storage operations attributed to public calls); for EVERY prefix of the journal the four files are rebuilt, reopened with open(true), observed (info, get of every index) and compared with the model before and after the interrupted call, then a fixed continuation (append, clear, batch, reopen, append, reopen with full observation after each) must match the model; histories: bounded-exhaustive over the 8-symbol alphabet incl. reopen (L=4 quick / 5 thorough), directed reopen-heavy and make_read_only histories, replica histories (honest proof applications), seeded-random <= 40 ops; evaluations = crash points; distinct = (history, prefix) pairs",
